@@ -842,7 +842,7 @@ def model_check(quick: bool) -> T.List[T.Tuple[str, T.Any]]:
     if not quick:
         runs = [
             ('31+22/7kinds/flaky', '{31, 22}', '{"ok", "fail", "upass", "xfail", "timeout", "skip", "error"}', 'TRUE'),
-            ('41/5kinds', '{41}', '{"ok", "fail", "upass", "timeout", "skip"}', 'FALSE'),
+            ('41/4kinds', '{41}', '{"ok", "fail", "upass", "timeout"}', 'FALSE'),
             ('32/3kinds', '{32}', '{"ok", "fail", "timeout"}', 'FALSE'),
             ('32/2kinds/flaky', '{32}', '{"ok", "fail"}', 'TRUE'),
             ('42/2kinds', '{42}', '{"ok", "fail"}', 'FALSE'),
